@@ -38,6 +38,12 @@ def run_property(C, pid, tier, seed, replay):
     if problems:
         broken.append({"kind": "property-file", "what": problems, "log": plog[-1500:]})
     discharged = len(thms) if not problems and rc == 0 else 0
+    # thorough tier: the independent checker re-checks the compiled property file and everything it depends on
+    coqchk = None
+    if tier == "thorough" and not problems and rc == 0:
+        coqchk = C.run_coqchk(pid)
+        if not coqchk["ok"]:
+            broken.append({"kind": "coqchk", "what": coqchk["summary"]})
     # ---- 3. correspondence + reflections on the real code
     evaluations, nontrivial, samples = 0, 0, []
     corr_fail, violations, known_hits = [], [], {}
@@ -153,6 +159,7 @@ def run_property(C, pid, tier, seed, replay):
             "checker_cmd": f"make -C coq (coqc 8.16.1, full .vo build) + coqc Properties/{pid}.v with Print Assumptions; ./check {pid} --tier {tier}",
             "trusted_base": TRUSTED_BASE + cfg.get("trusted", []),
             "theorems": thms, "axioms_reported": axioms, "statement_pin": pin,
+            "coqchk": coqchk if coqchk is not None else "thorough tier only (coqchk -o on the property file and its whole dependency cone)",
             "evaluations": evaluations, "distinct_nontrivial": nontrivial,
             "rule": cfg.get("rule", ""), "samples": samples or [{"note": "no stream for this property"}],
             "exhaustive": bool(cfg.get("exhaustive_part")),
